@@ -8,65 +8,65 @@ ALL = ["C%02d" % i for i in range(1, 21)]
 # id -> (engine, technique, level text, level note, design_ref)
 CHECKS = {
  "C01": ("enum", "bounded-exhaustive enumeration of byte streams (complete small alphabets, segment sequences, single-frame mutation sweeps) against an independent frame predicate",
-         "Every string up to length 6/8 over alphabets built from a valid frame's own bytes, every sequence of <=3/4 menu segments and every single-bit/burst/byte/truncation/length-field mutation of frames of every payload length is pushed through the stream handler and GetMessage; each typed result must be exactly one CRC-valid frame by the independent bitwise CRC-24Q predicate. Complete within the stated alphabets and lengths, no sampling.",
+         "Every string up to length 6/8 over alphabets built from a valid frame's own bytes, every sequence of <=3/4 menu segments and every single-bit/burst/byte/truncation/length-field mutation of frames of every payload length is pushed through the stream handler and GetMessage; each typed result must be exactly one CRC-valid frame by the independent bitwise CRC-24Q predicate, a prefix of the input, with the reported type equal to its first 12 payload bits. Complete within the stated alphabets and lengths, no sampling.",
          "Trusts /verif/ref (bitwise CRC-24Q, IsFrame). Streams outside the enumerated shapes (longer than 8 symbols and not a menu sequence / single-frame mutation) are not covered.", "5/C01"),
  "C02": ("mc", "bounded-exhaustive input enumeration through the sequential framing seam + stateless model checking of producer/HandleMessages/consumer under a controlled scheduler (all interleavings, state-key pruning)",
-         "Input dimension: complete enumeration of short strings, frame cuts and menu sequences with the oracle concat(RawData)==input. Schedule dimension: the real HandleMessages, instrumented at build time, is run with a producer and a consumer thread under a scheduler that owns every channel operation; for each stream and channel-capacity pair every interleaving is explored (the unbounded pass completes for all quick-tier scenarios) and losslessness, single close, no panic and no blocked thread are checked on each.",
-         "Scheduling points are channel operations of rtcm/handler and rtcm/pushback; the channel/goroutine semantics are those of mc/mcrt (validated by its conformance tests against the Go runtime).", "5/C02"),
- "C03": ("enum", "bounded-exhaustive enumeration of segment sequences (valid frames of all lengths, D3-free junk, truncated tails) against the constructed expected segmentation",
-         "All sequences of <=3/4 segments from 14 frames and 5 junk runs, every truncation position of a tail frame, and every payload length 1..1023 alone/between junk/back-to-back; the delivered (type, bytes) list must equal the constructed list exactly.",
+         "Input dimension: complete enumeration of short strings, frame cuts, menu sequences and 0xD3-free runs of every length to 300 and round every power of two to 64K (thorough: every length to 8300), oracle concat(RawData)==input. Schedule dimension: the real HandleMessages, instrumented at build time, runs with a producer and a consumer thread under a scheduler that owns every channel operation; every interleaving per stream and channel-capacity pair, plus 24-message bursts with a consumer that lags as far as the pipeline allows; losslessness, order, single close, no panic, no blocked thread on each execution.",
+         "Scheduling points are channel operations of rtcm/handler and rtcm/pushback; channel/goroutine semantics are those of mc/mcrt (validated by its conformance tests against the Go runtime). Evidence lists scenarios whose unbounded pass was cut.", "5/C02"),
+ "C03": ("enum", "bounded-exhaustive enumeration of segment sequences (valid frames of all lengths, D3-free junk of all lengths, truncated tails, several streams through one handler) against the constructed expected segmentation",
+         "All sequences of <=3/4 segments from a menu of valid frames and junk runs, every truncation position of a tail frame, every payload length 1..1023 alone/between junk/back-to-back, a frame after and between 0xD3-free runs of every length (to 300 and round powers of two to 64K; thorough to 8300), and three consecutive streams through ONE handler with the real HandleMessages for 22 ways the first stream can end; the delivered (type, bytes) list must equal the constructed list exactly.",
          "Precondition (no stray 0xD3 in junk) holds by construction. Sequences longer than 4 segments are not covered.", "5/C03"),
- "C09": ("mc", "stateless model checking of the real reader->framing->fan-out pipeline under a controlled scheduler (all interleavings and source chunkings per scenario, state-key pruning; deviation-bounded where the budget cuts the unbounded pass)",
-         "AppCore.HandleMessagesUntilEOF, file_handler, HandleMessages and the push-back channel run instrumented under a scheduler owning every goroutine, channel operation and source Read. For 11 streams x 6 consumer lists every interleaving and chunking is explored where feasible; each consumer must receive exactly the sequential framing of the bytes, the call must return 0, all goroutines must finish, and no thread may panic.",
-         "Threads share memory only through channels (state-key pruning relies on it). 'No data race' is outside the cooperative scheduler and only touched by the auxiliary -race pass. Evidence lists scenarios whose unbounded pass was cut and the bound completed for them.", "5/C09"),
- "C12": ("enum", "bounded-exhaustive fault enumeration: every bit flip, 2-bit burst and byte overwrite of payload+CRC of a victim frame in every position of 3-segment streams, differential against the uncorrupted stream",
-         "For victim lengths 1..255 (1023 thorough) in each of three positions between frame and junk neighbours, every CRC-breaking corruption in the enumerated classes must yield the same delivery list with the victim replaced by one non-RTCM message of exactly its bytes.",
-         "Corruption sets beyond single/double adjacent flips, single byte overwrites and D3 pairs are not enumerated.", "5/C12"),
- "C13": ("mc", "fault-sequence enumeration under the controlled scheduler with a virtual clock: EOF/timeout runs and errors injected at every byte position, combined with preemptions, up to a deviation bound",
-         "file_handler.Handle runs instrumented (virtual time.Now/Sleep) over a scripted source; at every Read the explorer may inject EOF runs (1-4), timeouts (1, 4) or another error. All combinations of <=2/3 deviations (faults + preemptions) are explored for 7 streams x 3 tolerance settings x 2 channel capacities; delivered messages must equal the framing of exactly the supplied bytes, giving up must respect the tolerance, zero tolerance must stop at once, the read error must be returned and the channel closed once.",
-         "Deviation-bounded, not unbounded (the fault space is infinite by construction). Time is virtual; real OS timing is not modelled.", "5/C13"),
- "C14": ("enum", "exhaustive enumeration of all bit patterns of small buffers x all (pos,width), plus all widths 1..64 x all alignments x structured patterns, against shift-and-mask / math/big references",
-         "E1 is complete over 2-byte (quick) / 3-byte (thorough) buffers: every bit pattern, every field position and width, unsigned and signed. E2 covers every width 1..64 at every alignment on exactly-sized and oversized buffers with walking-bit, pair and complement patterns, so influence of outside bits and out-of-field reads are detected.",
-         "Fields wider than 24 bits are checked on structured patterns, not all 2^64 values.", "5/C14"),
- "C18": ("mc", "explicit-state BFS over the real queue (capacities 1..8, canonicalised states) + stateless model checking of concurrent adders/readers with preemption bounding and a brute-force linearizability oracle",
-         "Sequential: every reachable canonical state and transition for capacities 1..8 is compared with a slice model, plus 10^4-addition runs. Concurrent: the real queue with its sync import routed to the scheduler and yield points at every function/loop entry is run with 3 threads; every schedule with <=2/3 preemptions is explored and each call/return history must be linearizable.",
-         "Yield-point granularity (function and loop entry, lock operations). 'No data race' only via the auxiliary -race pass. RWMutex writer preference not modelled (superset).", "5/C18"),
- "C20": ("enum", "complete enumeration of the 4098 message types against an independent classification table",
-         "Every one of the 4096 message types and both negative sentinels is run through every classification entry point, a synthetic header-only frame of that type through GetMessage/Analyse/String at both log levels, and all four decoders; the space is finite and enumerated completely, so within the observation set this is a decision, not a sample.",
-         "Trusts the independent table in props/c20.go (MSM4/MSM7 = 1074..1137 ending 4/7, names by stem). Synthetic frames have empty masks only.", "5/C20"),
- "C10": ("mc", "stateless model checking of the shipped rtcmfilter.HandleMessages under a controlled scheduler (all interleavings of pipeline and writer goroutines per scenario, state-key pruning) + bounded-exhaustive input enumeration under the default schedule",
-         "The real HandleMessages of rtcmfilter is driven through an in-package harness added by go build -overlay; stdout, record and display writers are harness-owned and every Write is a scheduling point. For 9 streams x 4 log configurations every interleaving is explored where the unbounded pass completes (else deviation bound 1-2); all <=2/3-segment menu sequences run under the default schedule. At quiescence stdout must equal the valid frames of the sequential framing, the record must be identical and the display must have exactly one entry per message.",
-         "dailylogger.New is redirected to an in-memory sink (file naming belongs to the dependency). Differential oracle: the implementation's own sequential framing filtered by the independent frame predicate.", "5/C10"),
- "C11": ("mc", "stateless model checking of the shipped HandleMessages of displayrtcm3 and rtcmfilter under a controlled scheduler, oracle evaluated at the instant the call returns",
-         "Both entry points run instrumented with a harness-owned writer whose Write is a scheduling point (optionally two steps per call); for streams with 1-3 messages every interleaving is explored (unbounded pass completes for all but the largest scenario) and at the moment the call returns on the calling thread the writer must hold the complete expected output.",
-         "Only the writer passed to the entry point is judged. Expected output comes from sequential framing by the implementation.", "5/C11"),
- "C16": ("mc", "stateless model checking of the shipped rtcmlogger start() with harness-owned stdin/stdout/record writer: all chunkings and all interleavings of the copy loop and the recorder",
-         "start() runs instrumented (os.Stdin/os.Stdout and dailylogger.New redirected at build time); for 8 input sizes around the 8096-byte block, event logging on/off and one- or two-step writes, every chunking and interleaving is explored (exhaustive: the unbounded pass completes for every scenario). When start() returns stdout and the record must both equal stdin and the recorder must terminate.",
-         "The record is an in-memory sink (file naming/rotation belong to the dependency). Read errors other than EOF are not injected.", "5/C16"),
- "C19": ("mc", "stateless model checking of the proxy's shipped relay and status code over in-memory net.Conn values under a controlled scheduler (chunking + scheduling choices, deviation bound 2; unbounded pass in the thorough tier)",
-         "handleMessages, handleClientMessages, handleServerMessages, keepCircularQueueUpdated and ReportFeed.Status run instrumented (channels, goroutines, sync, time) with the package globals set as start() sets them; a status thread calls Status() at scheduler-chosen moments. 7 client streams (HTML-looking payloads and junk, malformed CRC-valid MSM frames) x 3 server streams: both directions must be relayed byte-for-byte, nothing may panic or spin, every report may list only a prefix of the framing of the client stream and must contain no '<'/'>' beyond the fixed template.",
-         "TCP replaced by in-memory connections (kernel segmentation/timing not covered); status HTTP server not started; daily log writer is the real type with logging disabled; escaping judged on '<' and '>'.", "5/C19"),
  "C04": ("enum", "bounded-exhaustive enumeration of a complete product of MSM4/MSM7 messages (types x mask shapes x cell masks x field values x flags x paddings) built by an independent encoder, decoded and compared field by field",
-         "Every message of the product 14 types x 8-11 mask shapes x all/6 cell masks x 6 value assignments x 3 header-scalar settings x multiple-message flag x 11-19 padding lengths is encoded by the reference encoder and decoded by the library; every exported header, satellite and signal field, including the satellite/signal id each cell is attached to, must equal the encoder input and no message may be rejected.",
-         "The reference encoder (/verif/ref/msm.go) defines 'well-formed'. Field values are the 6 structured assignments, not all 2^n values per field (C08 and C14 sweep values).", "5/C04"),
- "C05": ("enum", "bounded-exhaustive enumeration of 1005/1006 field values (boundary products, every reserved-bit value, dense integer sweeps for the display clause), truncations and wrong-type payloads against an independent encoder and an integer decimal formatter",
-         "Boundary-set products over the three 38-bit coordinates, all reserved-bit values, station ids, ITRF years and heights, 0-3 trailing bytes, every truncation length and cross-typed payloads, through the decoders directly and through handler.GetMessage+String at both log levels; plus dense sweeps of every integer in windows around 0, +-2^37 and each +-2^k. Fields must be exact, the display must show value x 0.0001 to four decimals exactly (computed in integers), and short or mistyped payloads must be rejected.",
+         "Every message of the product 14 types x mask shapes (incl. every n x m with n<=4, m<=8, n*m<=16, 64x1, 32x2, 8x8, 2x32) x cell masks x 9 value assignments (zero, max, reserved 'invalid', -1, alternating, counters with zero first/last cells or fields) x header scalars x multiple-message flag x padding lengths is encoded by the reference encoder and decoded by the library; every exported header, satellite and signal field, including the satellite/signal id each cell is attached to, must equal the encoder input, no message may be rejected, and the previously decoded message is compared again after each decode.",
+         "The reference encoder (/verif/ref/msm.go) defines 'well-formed'. Field values are structured assignments, not all 2^n values per field (C08 and C14 sweep values).", "5/C04"),
+ "C05": ("enum", "bounded-exhaustive enumeration of 1005/1006 field values (boundary products, every reserved-bit value, dense integer sweeps for the display clause), paddings, truncations and wrong-type payloads against an independent encoder and an integer decimal formatter",
+         "Boundary-set products over the three 38-bit coordinates, all reserved-bit values, station ids, ITRF years and heights, every amount of trailing padding up to the 1023-byte maximum, every truncation length (re-framed, and raw prefixes from 0 bytes handed to the decoders) and cross-typed payloads, through the decoders directly and through handler.GetMessage+String at both log levels; plus dense sweeps of every integer in windows around 0, +-2^37 and each +-2^k. Fields must be exact, the display must show value x 0.0001 to four decimals exactly (computed in integers), and short or mistyped payloads must be rejected.",
          "Coordinates outside the boundary set and sweep windows are not enumerated.", "5/C05"),
  "C06": ("enum", "explicit enumeration of message histories from the real handler state (cloned at every branch) against a reference GNSS time model",
-         "From 40 start times (Wednesday noon and each constellation's roll-over -1 ms/0/+1 ms, in 4 time zones) every history of <=3/4 messages over four constellations and a 9-step time-advance menu plus illegal timestamps, and single-constellation histories of depth <=5/7, is run through handler.GetMessage on CRC-valid frames; SentAt and StartOfWeek of every message must equal the reference model's true instant and week start; illegal timestamps must give an error and leave later messages exact.",
+         "From start times at Wednesday noon and each constellation's roll-over -1 ms/0/+1 ms in 4 time zones, and in weeks of 2013, 2010 and the 2019/2020 year end, every history of <=3/4 messages over four constellations and a 9-step time-advance menu plus illegal timestamps, and single-constellation histories of depth <=5/6, is run through handler.GetMessage on CRC-valid frames; plus four-message histories delivered through Handler.HandleMessages and cut into consecutive streams on one handler in every way. SentAt and StartOfWeek of every message must equal the reference model's true instant and week start; illegal timestamps must give an error and leave later messages exact.",
          "Reference model /verif/ref/gnsstime.go (offsets 18 s, 4 s, 3 h as the statement gives). Depth-bounded; the advance menu is finite.", "5/C06"),
- "C07": ("enum", "bounded-exhaustive enumeration of hostile inputs (complete small alphabets, every payload length x 14 payload patterns x 16 decodable types, every truncation of well-formed messages, every type) through every public entry point under recover and a stall watchdog",
-         "Every CRC-valid frame of each decodable type with every payload length 1..1023 (quick: a subset) and 14 deterministic payload patterns including masks announcing more cells than fit and illegal timestamps, every truncation of well-formed MSM/1005/1006 messages, all 4096 types with short payloads and all short strings over a frame alphabet go through the stream loop, GetMessage, Analyse, String (both levels), Copy and the four decoders; any panic, unbounded framing loop or stall is a violation.",
-         "Payload bits are the 14 patterns, not all 2^n values. A hang is reported only if it reproduces.", "5/C07"),
+ "C07": ("enum", "bounded-exhaustive enumeration of hostile inputs (complete small alphabets, every payload length x 14 payload patterns x 16 decodable types, every truncation of well-formed messages, every reserved-value combination, every type, sequences through one handler) through every public entry point under recover and a stall watchdog",
+         "Every CRC-valid frame of each decodable type with every payload length 1..1023 (quick: a subset) and 14 deterministic payload patterns including masks announcing more cells than fit and illegal timestamps, every truncation of well-formed MSM/1005/1006 messages, complete MSM messages with every subset of reserved 'invalid' values, all 4096 types with short payloads, all short strings over a frame alphabet, and all ordered pairs and triples of a 26-frame menu through ONE handler go through the stream loop, GetMessage, Analyse, String (both levels), Copy and the four decoders; any panic, unbounded framing loop or stall is a violation.",
+         "Payload bits are the enumerated patterns, not all 2^n values. A hang is reported only if it reproduces.", "5/C07"),
  "C08": ("enum", "exhaustive / strided sweeps of every fine field at anchor points plus boundary products, against exact rational arithmetic (math/big), 8 ulp tolerance",
-         "Signal cells are built through the packages' constructors and through decoded messages; whole-ms x fractional products, every value (thorough) of each fine range/phase/rate field at 6 anchors, the full boundary product including every 'invalid' marker, all 4 x 34 constellation/signal-id wavelengths and MSM4/MSM7 pairs encoding the same quantity are compared with the standard's formulas evaluated in exact rationals.",
+         "Signal cells are built through the packages' constructors and through decoded messages; whole-ms x fractional products, every value (thorough) of each fine range/phase/rate field at 6 anchors, the full boundary product including every 'invalid' marker and zero rough ranges, all 4 x 34 constellation/signal-id wavelengths and MSM4/MSM7 pairs encoding the same quantity are compared with the standard's formulas evaluated in exact rationals; six messages are decoded first and checked afterwards.",
          "Negative true values and undefined wavelengths are only checked for absence of panics (excluded by the statement). Band assignment of signal ids is not pinned.", "5/C08"),
+ "C09": ("mc", "stateless model checking of the real reader->framing->fan-out pipeline under a controlled scheduler with virtual time (all interleavings and source chunkings per scenario, state-key pruning; deviation-bounded where the budget cuts the unbounded pass)",
+         "AppCore.HandleMessagesUntilEOF, file_handler, HandleMessages and the push-back channel run instrumented under a scheduler owning every goroutine, channel operation, timer and source Read. Streams x consumer lists (buffered, unbuffered, nil entries, lagging consumers), second calls on the same AppCore, final data handed over together with io.EOF, sources that pause under a non-zero tolerance, inputs of 4095..8193 bytes: each consumer must receive exactly the sequential framing of the bytes, the call must return, all goroutines must finish, nothing may panic or close twice.",
+         "Threads share memory only through channels (state-key pruning relies on it). 'No data race' is outside the cooperative scheduler and only touched by the auxiliary -race pass. Evidence lists scenarios whose unbounded pass was cut and the bound completed for them.", "5/C09"),
+ "C10": ("mc", "stateless model checking of the shipped rtcmfilter.HandleMessages under a controlled scheduler (all interleavings of pipeline and writer goroutines per scenario, state-key pruning) + bounded-exhaustive input enumeration under the default schedule",
+         "The real HandleMessages of rtcmfilter is driven through an in-package harness added by go build -overlay; stdout, record and display writers are harness-owned and every Write is a scheduling point. Streams x log configurations under every interleaving where the unbounded pass completes (else deviation bound 1-2); all <=2/3-segment menu sequences under the default schedule; display-log write errors, a stalled writer with 24 frames in flight, inputs ending in a hard read error, a quiet source with a non-zero EOF tolerance, inputs of 4095..8193 bytes. At quiescence stdout must equal the valid frames of the sequential framing, the record must be identical and the display must have exactly one entry per message.",
+         "dailylogger.New is redirected to an in-memory sink (file naming belongs to the dependency). Differential oracle: the implementation's own sequential framing filtered by the independent frame predicate.", "5/C10"),
+ "C11": ("mc", "stateless model checking of the shipped HandleMessages of displayrtcm3 and rtcmfilter under a controlled scheduler, oracle evaluated at the instant the call returns",
+         "Both entry points run instrumented with a harness-owned writer whose Write is a scheduling point (optionally two steps per call, optionally stalled until nothing else can run); for streams with 1-3 messages (and 24 for the stalled writer) every interleaving is explored where the unbounded pass completes and at the moment the call returns on the calling thread the writer must hold the complete expected output.",
+         "Only the writer passed to the entry point is judged. Expected output comes from sequential framing by the implementation.", "5/C11"),
+ "C12": ("enum", "bounded-exhaustive fault enumeration: every bit flip, 2-bit burst and byte overwrite of payload+CRC of a victim frame in every position of 3-segment streams, differential against the uncorrupted stream",
+         "For victim lengths 1..255 (1023 thorough) in each of three positions between frame, junk and MSM neighbours, every CRC-breaking corruption in the enumerated classes must yield the same delivery list with the victim replaced by one non-RTCM message of exactly its bytes; for time-consistent streams the timestamps, time texts and error texts of the neighbours must be unchanged too.",
+         "Corruption sets beyond single/double adjacent flips, single byte overwrites and D3 pairs are not enumerated.", "5/C12"),
+ "C13": ("mc", "fault-sequence enumeration under the controlled scheduler with a virtual clock: EOF/timeout runs, errors, short chunks and data-with-error answers injected at every byte position, combined with preemptions and consumer pauses, up to a deviation bound",
+         "file_handler.Handle runs instrumented (virtual time.Now/Sleep) over a scripted source; at every Read the explorer may inject one of 12 alternative answers. All combinations of <=2/3 deviations are explored for 7 streams x 5 tolerance settings (the two options varied independently) x 2 channel capacities; delivered messages must equal the framing of exactly the supplied bytes, giving up must respect the tolerance (not earlier, not much later), zero tolerance must stop at once, the read error must be returned and the channel closed once.",
+         "Deviation-bounded, not unbounded (the fault space is infinite by construction). Time is virtual; real OS timing is not modelled.", "5/C13"),
+ "C14": ("enum", "exhaustive enumeration of all bit patterns of small buffers x all (pos,width), all widths 1..64 x all alignments x structured patterns, and fields round power-of-two byte indices of large buffers, against shift-and-mask / math/big references",
+         "E1 is complete over 2-byte (quick) / 3-byte (thorough) buffers: every bit pattern, every field position and width, unsigned and signed. E2 covers every width 1..64 at every alignment on exactly-sized and oversized buffers with walking-bit, pair and complement patterns, so influence of outside bits and out-of-field reads are detected. E3 covers every position and width round byte indices 2^8..2^24 (thorough 2^29) of large buffers.",
+         "Fields wider than 24 bits are checked on structured patterns, not all 2^64 values.", "5/C14"),
  "C15": ("mc", "explicit enumeration of frame histories through one handler (state cloned per branch) + stateless model checking of concurrent decoders with yield points in the whole decoding library (preemption-bounded)",
-         "Histories: every sequence of <=3/4 inputs from a 14-entry alphabet through one handler at both log levels; decoded structure and display (minus the MSM time lines) must equal the fresh-handler baseline, second display identical, raw bytes untouched, and a value copy must be unaffected by what another consumer does with its own copy. Concurrency: 2-3 threads decode and display on separate handlers and on value copies of one message under the controlled scheduler with scheduling points at every function and loop entry of the rtcm packages; every schedule with <=1/2 preemptions must reproduce the sequential results.",
+         "Histories: every sequence of <=3/4 inputs from a 25-entry alphabet (all decodable families, shape-confusable masks, reserved values, double-error frames, junk) through one handler at both log levels; decoded structure and display (minus the MSM time lines) must equal the fresh-handler baseline, repeated displays must be identical and leave the decoded fields as an undisplayed twin has them, raw bytes untouched, earlier messages unchanged by later decodes, and a value copy must be unaffected by what another consumer does with its own copy (display at another level, Analyse, field assignments). Concurrency: 2-3 threads decode and display on separate handlers and on value copies of one message under the controlled scheduler with scheduling points at every function and loop entry of the rtcm packages; every schedule with <=1/2 preemptions must reproduce the sequential results.",
          "Yield-point granularity; memory-model races only via the auxiliary -race pass.", "5/C15"),
- "C17": ("enum", "explicit enumeration of (start time, first observation, history) triples from the real handler state against the reference GNSS time model",
-         "For each constellation, start times at the week start, +1 ms, +1 s, Wednesday noon and the week end -1 s/-1 ms in 4 time zones, first observations before, at and after T within the same constellation week, followed by every history of depth <=2/3 with the C06 step menu; every reported time and week start must equal the reference model.",
-         "Same reference model as C06; depth-bounded.", "5/C17"),
+ "C16": ("mc", "stateless model checking of the shipped rtcmlogger start() with harness-owned stdin/stdout/record writer: all chunkings and all interleavings of the copy loop and the recorder, plus an enumeration of start-up environments with the record in real files",
+         "start() runs instrumented (os.Stdin/os.Stdout and dailylogger.New redirected at build time); for 8 input sizes around the 8096-byte block, event logging on/off and one- or two-step writes, every chunking and interleaving is explored (the unbounded pass completes for every scenario); a record writer that fails on every call must not stall the pass-through; and 96 start-up environments (host time zone x record-directory state x input x event log) with the record in real files. When start() returns stdout and the record must both equal stdin and the recorder must terminate.",
+         "The record is an in-memory sink or a file-backed stand-in that keeps the daily writer's contract (rotation at midnight belongs to the dependency). Read errors other than EOF are not injected.", "5/C16"),
+ "C17": ("mc", "explicit enumeration of (start time, first observation, history) triples from the real handler state against the reference GNSS time model + the application path (displayrtcm3's own argument parsing and HandleMessages) under the controlled scheduler for an enumeration of host time zones and date arguments",
+         "For each constellation, start times at the week start, +1 ms, +1 s, Wednesday noon and the week end -1 s/-1 ms in 4 time zones (and weeks of 2013, 2010, 2019/2020), first observations before, at and after T within the same constellation week, followed by every history of depth <=2/3 with the C06 step menu; every reported time and week start must equal the reference model. Application level: 7 host time zones x 3 observation instants x 16 date arguments through getTime + HandleMessages of displayrtcm3; every 'Time' line must show the true observation time.",
+         "Same reference model as C06; depth-bounded. 'yyyy-mm-dd' is taken as midnight UTC, as the program documents.", "5/C17"),
+ "C18": ("mc", "explicit-state BFS over the real queue (capacities 1..8, canonicalised states) + stateless model checking of concurrent adders/readers with preemption bounding and a brute-force linearizability oracle",
+         "Sequential: every reachable canonical state and transition for capacities 1..8 is compared with a slice model, plus 10^4-addition runs. Concurrent: the real queue with its sync import routed to the scheduler (Mutex, RWMutex with writer preference, TryLock) and yield points at every function/loop entry is run with 3 threads; every schedule with <=2/3 preemptions is explored and each call/return history must be linearizable.",
+         "Yield-point granularity (function and loop entry, lock operations). 'No data race' only via the auxiliary -race pass.", "5/C18"),
+ "C19": ("mc", "stateless model checking of the proxy's shipped relay and status code over in-memory net.Conn values under a controlled scheduler (chunking + scheduling choices, deviation bound 2; unbounded pass in the thorough tier)",
+         "handleMessages, handleClientMessages, handleServerMessages, keepCircularQueueUpdated and ReportFeed.Status run instrumented (channels, goroutines, sync, time) with the package globals set as start() sets them; a status thread calls Status() (and switches the message log) at scheduler-chosen moments. Client streams (HTML-looking payloads and junk, malformed CRC-valid MSM frames, bursts of 2047..4096 bytes) x server streams x message log off/on/switched, and peers that stop reading: both directions must be relayed byte-for-byte, nothing may panic, spin or block the other direction, every report may list only a prefix of the framing of the client stream and must contain no '<'/'>' beyond the fixed template.",
+         "TCP replaced by in-memory connections (kernel segmentation/timing not covered); status HTTP server not started; the daily log writer is the real type over a scratch directory; escaping judged on '<' and '>'.", "5/C19"),
+ "C20": ("enum", "complete enumeration of the 4098 message types against an independent classification table",
+         "Every one of the 4096 message types and both negative sentinels is run through every classification entry point, a synthetic header-only frame of that type through GetMessage/Analyse/String (and a bare String) at both log levels, all four decoders, and CRC-valid frames of 9 payload lengths through HandleMessages, whose classification must agree; the space is finite and enumerated completely, so within the observation set this is a decision, not a sample.",
+         "Trusts the independent table in props/c20.go (MSM4/MSM7 = 1074..1137 ending 4/7, names by stem). Synthetic frames have empty masks only.", "5/C20"),
 }
 
 def main():
